@@ -799,6 +799,62 @@ def abbreviate(rng, tr):
     return out
 
 
+FACET_MODES = ['f_trcl_num', 'f_trcl_inline', 'f_trcl_star', 'f_trcl_inline3',
+               'f_fill_tr', 'f_fill_star']
+
+
+def gen_facet_deck(rng, mode):
+    '''A cell naming SEVERAL facets of one macrobody (and possibly the whole
+    body), moved by TRCL (number, inline, starred, 3 entries) or sitting in a
+    universe placed by a FILL transformation.'''
+    mn = rng.choice(['rpp', 'rpp', 'box', 'rcc'])
+    while True:
+        kind, prm = gen_surface(rng)
+        if kind == mn:
+            break
+    nfac = {'rpp': 6, 'box': 6, 'rcc': 3}[mn]
+    body = {'id': 10, 'mn': mn, 'params': prm, 'tr': None, 'bc': ''}
+    picks = rng.sample(range(1, nfac + 1), rng.choice([2, 2, 3, min(4, nfac)]))
+    leaves = [('f', rng.choice([-10, -10, 10]), k) for k in picks]
+    if rng.random() < 0.4:
+        leaves.insert(rng.randrange(len(leaves) + 1),
+                      ('s', rng.choice([-10, 10])))
+    if rng.random() < 0.3:      # the same facet twice, opposite roles
+        leaves.append(('f', rng.choice([-10, 10]), picks[0]))
+    op = '*' if rng.random() < 0.7 else ':'
+    expr = (op,) + tuple(leaves)
+    spec = tr_spec(rng, star=mode in ('f_trcl_star', 'f_fill_star'))
+    if mode == 'f_trcl_inline3':
+        origin = gen_origin(rng)
+        spec = {'O': tuple(origin), 'B': None, 'star': False, 'print': origin}
+    transforms = {}
+    if mode in ('f_fill_tr', 'f_fill_star'):
+        cells = [
+            {'id': 1, 'mat': 0, 'rho': None, 'expr': ('s', -20),
+             'imp': {'n': 1}, 'u': 0, 'fill': {'u': 1, 'tr': spec}},
+            {'id': 2, 'mat': 0, 'rho': None, 'expr': ('s', 20),
+             'imp': {'n': 0}, 'u': 0},
+            {'id': 3, 'mat': 0, 'rho': None, 'expr': expr, 'imp': {'n': 1},
+             'u': 1},
+            {'id': 4, 'mat': 0, 'rho': None, 'expr': ('#c', 3),
+             'imp': {'n': 1}, 'u': 1}]
+        surfs = [body, {'id': 20, 'mn': 'so', 'params': [6.0], 'tr': None,
+                        'bc': ''}]
+    else:
+        cell1 = {'id': 1, 'mat': 0, 'rho': None, 'expr': expr,
+                 'imp': {'n': 1}, 'u': 0}
+        if mode == 'f_trcl_num':
+            transforms[7] = spec
+            cell1['trcl'] = ('num', 7)
+        else:
+            cell1['trcl'] = spec
+        cells = [cell1, {'id': 2, 'mat': 0, 'rho': None, 'expr': ('#c', 1),
+                         'imp': {'n': 1}, 'u': 0}]
+        surfs = [body]
+    return {'title': f'C04 sweep {mode}', 'cells': cells, 'surfaces': surfs,
+            'transforms': transforms}, []
+
+
 def deck_classes(deck, moved):
     '''Known-finding classes a failing deck of the sweep may belong to: none
     is open for C04 any more.'''
@@ -890,6 +946,20 @@ CORPUS.update({
         '10 so 10\n11 s 1 0 0 3\n12 s 2 0 0 1\n\n',
 })
 
+CORPUS.update({
+    # several facets of one macrobody (and the body itself) in a moved cell:
+    # every reference is its own surface (seeded regression C04_C: a memo keyed
+    # by the surface number without the facet)
+    'facets_under_trcl':
+        'facets under TRCL\n1 0 -10.1 10.2 -10.3 -10 '
+        'trcl=(1 0 0 0 1 0 -1 0 0 0 0 1) imp:n=1\n2 0 #1 imp:n=1\n\n'
+        '10 rpp -1 2 -1.5 1 -0.5 0.5\n\n',
+    'facets_under_fill_tr':
+        'facets under FILL tr\n1 0 -20 *fill=1 (0.5 0 0 30 60 90 120 30 90 90 90 0) '
+        'imp:n=1\n2 0 20 imp:n=0\n3 0 -10.2 -10.1 10.3 u=1 imp:n=1\n'
+        '4 0 #3 u=1 imp:n=1\n\n10 rcc 0 0 -1 0 0 2 1.5\n20 so 6\n\n',
+})
+
 # decks that MUST be rejected (m = -1 on a TR card used by a surface)
 MUST_REJECT = {
     'tr_card_m_minus_one':
@@ -900,6 +970,32 @@ MUST_REJECT = {
 WITNESSES = {}      # no open class
 
 WITNESS_DECKS = {
+    'facets_under_trcl': {
+        'cells': [{'id': 1, 'mat': 0,
+                   'expr': ('*', ('f', -10, 1), ('f', 10, 2), ('f', -10, 3),
+                            ('s', -10)), 'imp': {'n': 1},
+                   'trcl': {'O': (1, 0, 0),
+                            'B': [0, 1, 0, -1, 0, 0, 0, 0, 1]}},
+                  {'id': 2, 'mat': 0, 'expr': ('#c', 1), 'imp': {'n': 1}}],
+        'surfaces': [{'id': 10, 'mn': 'rpp',
+                      'params': [-1.0, 2.0, -1.5, 1.0, -0.5, 0.5]}],
+        'transforms': {}},
+    'facets_under_fill_tr': {
+        'cells': [{'id': 1, 'mat': 0, 'expr': ('s', -20), 'imp': {'n': 1},
+                   'fill': {'u': 1, 'tr': {
+                       'O': (0.5, 0, 0),
+                       'B': [math.cos(math.radians(a)) for a in
+                             (30, 60, 90, 120, 30, 90, 90, 90, 0)]}}},
+                  {'id': 2, 'mat': 0, 'expr': ('s', 20), 'imp': {'n': 0}},
+                  {'id': 3, 'mat': 0,
+                   'expr': ('*', ('f', -10, 2), ('f', -10, 1), ('f', 10, 3)),
+                   'imp': {'n': 1}, 'u': 1},
+                  {'id': 4, 'mat': 0, 'expr': ('#c', 3), 'imp': {'n': 1},
+                   'u': 1}],
+        'surfaces': [{'id': 10, 'mn': 'rcc',
+                      'params': [0.0, 0.0, -1.0, 0.0, 0.0, 2.0, 1.5]},
+                     {'id': 20, 'mn': 'so', 'params': [6.0]}],
+        'transforms': {}},
     'trcl_with_complement': {
         'cells': [{'id': 1, 'mat': 0, 'expr': ('*', ('s', -1), ('#c', 3)),
                    'imp': {'n': 1},
@@ -1502,6 +1598,9 @@ def tie_lattice(res, rng, n):
 # apply_trcl / pot_transform recorded on whole conversions
 # ---------------------------------------------------------------------------
 
+FACET_KEY = 10 ** 6     # facet n.k is the model's surface leaf k * 10^6 + n
+
+
 class PotRecorder:
     '''Wraps CellConversion.apply_trcl while decks are converted and records
     (TRCL list, expression, new_surf_key, dictionary entries) before and after.'''
@@ -1542,7 +1641,11 @@ class PotRecorder:
         from MIP.geom.semantics import Surface
         from t4_geom_convert.Kernel.Volume.CellMCNP import CellRef
         if isinstance(node, Surface):
-            return None if node.sub is not None else ('s', int(node))
+            if node.sub is not None:
+                # facet n.k: its own dictionary entry, keyed FACET_KEY*k + n
+                sign = 1 if int(node) >= 0 else -1
+                return ('s', sign * (FACET_KEY * node.sub + abs(int(node))))
+            return ('s', int(node))
         if isinstance(node, int):
             return ('s', node)
         if isinstance(node, CellRef):
@@ -1578,10 +1681,15 @@ class PotRecorder:
         if tree is None:
             return None
         table = []
+        from MIP.geom.semantics import Surface
         for k in sorted(self.leaves(tree, set())):
-            if k not in conv.dic_surf_mcnp:
+            key = Surface(k % FACET_KEY, sub=k // FACET_KEY) \
+                if k >= FACET_KEY else k
+            try:
+                parts = conv.dic_surf_mcnp[key]
+            except (KeyError, IndexError):
                 return None
-            entry = self.entry(conv.dic_surf_mcnp[k])
+            entry = self.entry(parts)
             if entry is None:
                 return None
             table.append((k, entry))
@@ -1932,10 +2040,14 @@ def sweep_decks(res, rng, n):
                                                   'implicit', 'trcl_plain12',
                                                   'trcl_plain12', 'trcl_13',
                                                   'trcl_abbrev']
+    modes += FACET_MODES      # several facets of one macrobody, moved
     ok = 0
     for _ in range(n):
         mode = rng.choice(modes)
-        deck, moved = gen_deck(rng, mode)
+        if mode in FACET_MODES:
+            deck, moved = gen_facet_deck(rng, mode)
+        else:
+            deck, moved = gen_deck(rng, mode)
         if mode == 'implicit' and rng.random() < 0.2:
             # refer to one implicit surface negatively only
             deck['cells'].append({'id': 3, 'mat': 0, 'rho': None,
